@@ -207,8 +207,9 @@ def gen_cases(ctx):
     for n in range(0, exhaustive_n + 1):
         for edges in all_dags(n):
             c = full_case(mapping_of(n, edges), rng)
-            if n >= 5:      # thorough only: 29281 graphs; a seeded dozen of the 25 pairs each
+            if n >= 5:      # thorough only: 29281 graphs; a seeded dozen of the 25 pairs and 3 of the 5 nodes each
                 c["pairs"] = rng.sample(c["pairs"][:-2], 12) + c["pairs"][-2:]
+                c["nodes"] = rng.sample(c["nodes"][:-1], 3) + c["nodes"][-1:]
             cases.append(("exh%d" % n, c))
     # seeded sample of the next size(s), in shuffled dict order
     for n, cnt in ([(5, 150)] if quick else [(6, 1000)]):
@@ -229,6 +230,7 @@ def gen_cases(ctx):
             edges = [(perm[i], perm[j]) for b, (i, j) in enumerate(pairs6) if mask >> b & 1]
             c = full_case(mapping_of(6, edges, rng), rng)
             c["pairs"] = rng.sample(c["pairs"][:-2], 12) + c["pairs"][-2:]
+            c["nodes"] = rng.sample(c["nodes"][:-1], 3) + c["nodes"][-1:]
             cases.append(("shape6", c))
     # shuffled dict orders of small DAGs
     small = all_dags(4)
@@ -357,7 +359,7 @@ def run(ctx):
         "S-graph: every labelled DAG on <= %d nodes (exhaustive, ascending dict order) + seeded samples of the next size in "
         "shuffled dict/children order (thorough: every unlabelled 6-node DAG shape in a seeded labelling), random DAGs on 6..40 nodes, cyclic graphs (back edges, self loops), graphs with "
         "parallel edges, zero weights; weights 1 (all ties) or random in 1..{2,3,9,1000}; every public routine of Graph "
-        "observed for every node / node pair (sampled on large graphs) incl. a node outside the graph; "
+        "observed for every node / node pair (a seeded sample of them on graphs of >= 5 nodes) incl. a node outside the graph; "
         "distinct = distinct (mapping, weights); non-trivial = >= 3 nodes, >= 2 edges and (>= 2 sources or a node "
         "with >= 2 parents)" % (4 if ctx.tier == "quick" else 5))
     seen = set()
